@@ -51,7 +51,7 @@ var posRe = regexp.MustCompile(`t\.ebnf:(\d+):(\d+)`)
 
 func parseErr(text string) (syntaxErr, specErr string, perr error) {
 	perr = rec.Guard(func() {
-		p, err := ebnf.New("t.ebnf", strings.NewReader(text))
+		p, err := ebnf.New("t.ebnf", ref.Source(text))
 		if err != nil {
 			syntaxErr = "New: " + err.Error()
 			return
@@ -59,7 +59,7 @@ func parseErr(text string) (syntaxErr, specErr string, perr error) {
 		if err := p.Parse(nil, nil); err != nil {
 			syntaxErr = err.Error()
 		}
-		if _, err := spec.Parse("t.ebnf", strings.NewReader(text)); err != nil {
+		if _, err := spec.Parse("t.ebnf", ref.Source(text)); err != nil {
 			specErr = err.Error()
 		}
 	})
